@@ -229,8 +229,11 @@ def gen_project(rng, size="small", features=None, focus=None):
         if "download" in m:
             if m["name"] in seen_dl and not pick(rng, 0.1): del m["download"]      # same name in two contexts: one download dir
             seen_dl.add(m["name"])
+    if len(contexts) > 2 and pick(rng, 0.3):
+        # contexts may be declared in any order: a context before its parent, the default context last
+        rng.shuffle(contexts)
     if any("download" in m for m in modules):
-        contexts[0]["rules"] += DL_RULES if pick(rng, 0.85) else DL_RULES[:1] if pick(rng, 0.5) else []
+        contexts[[c["name"] for c in contexts].index("default")]["rules"] += DL_RULES if pick(rng, 0.85) else DL_RULES[:1] if pick(rng, 0.5) else []
     doc = {"contexts": contexts, "builders": builders}
     files = {"laze-project.yml": [doc]}
     if not layout:
